@@ -43,7 +43,6 @@ Proof. apply forallb_In. vm_compute. reflexivity. Qed.
 Lemma link_types_in_vocab : forall t, In t enum_link_types -> type_allowed KLink t = true.
 Proof. apply forallb_In. vm_compute. reflexivity. Qed.
 
-Definition sL2Multisite := S "L2Multisite".
 (* FULL STATEMENT (false of the current tree): forall t, In t enum_service_types -> type_allowed KNS t = true *)
 Lemma service_types_in_vocab_partial :
   forall t, In t enum_service_types -> t <> sL2Multisite -> type_allowed KNS t = true.
